@@ -27,6 +27,7 @@ import (
 type c19Backend struct {
 	mu   sync.Mutex
 	last *c19Seen
+	n    int
 }
 
 type c19Seen struct {
@@ -39,7 +40,17 @@ type c19Seen struct {
 func (b *c19Backend) ServeHTTP(w http.ResponseWriter, r *http.Request) {
 	b.mu.Lock()
 	b.last = &c19Seen{Method: r.Method, Path: r.URL.Path, Raw: r.RequestURI, Hdr: r.Header.Clone()}
+	b.n++
+	n := b.n
 	b.mu.Unlock()
+	if n%4 == 0 && !strings.HasPrefix(r.URL.Path, "/internal/") {
+		// a backend that answers with a redirection (a login page, a canonical host): the answer is the
+		// client's business; the proxy has made its one request
+		w.Header().Set("Location", "/internal/admin/devices")
+		w.WriteHeader([]int{http.StatusFound, http.StatusMovedPermanently, http.StatusSeeOther, http.StatusTemporaryRedirect,
+			http.StatusPermanentRedirect}[n/4%5])
+		return
+	}
 	w.WriteHeader(http.StatusOK)
 	_, _ = w.Write([]byte("backend"))
 }
